@@ -179,6 +179,15 @@ def valid_templates(tier="quick"):
     T.append(_mk("validation_of_discovered", [Variant("v0", st, defaults=["top"])], {"dd.in": dd7}, ops, [nb], depth, ["produced", "validation"]))
     T.append(_mk("validation_of_discovered/fresh", [Variant("v0", st, defaults=["top"])], {"dd.in": dd7}, ops, [], 2, ["produced", "validation", "fresh"]))
 
+    # D7b: ... and that validation needs a statement of its own that nothing else in the build asks for
+    st = [Stmt("dd", ex=["dd.in"], copy=True), Stmt("pre", ex=["pre.in"]), Stmt("check", ex=["check.in", "pre"]), Stmt("h", ex=["h.in"], val=["check"]),
+          Stmt("out", ex=["in"], oo=["dd"], dyndep="dd", extra_reads=["h"]), Stmt("top", ex=["out"])]
+    ops, nb = common_ops([{"op": "touch", "path": "dd.in", "label": "touch dd.in"}, {"op": "edit", "path": "pre.in", "label": "edit pre.in"},
+                          {"op": "rm", "path": "pre", "label": "rm pre"}])
+    T.append(_mk("validation_of_discovered_has_a_prerequisite", [Variant("v0", st, defaults=["top"])], {"dd.in": dd7}, ops, [nb], depth, ["produced", "validation"]))
+    T.append(_mk("validation_of_discovered_has_a_prerequisite/fresh", [Variant("v0", st, defaults=["top"])], {"dd.in": dd7}, ops, [], 2,
+                 ["produced", "validation", "fresh"]))
+
     # D9: the discovered input is up to date, but its producer has a dirty order-only input; the dyndep file is
     # re-produced in the build and the bound statement itself stays clean
     dd9 = dyndep_text([("out", [], ["x"], False)])
